@@ -359,7 +359,14 @@ def run(tier):
                ('__typeof__(const int) f = 0; return _Generic(&f, int *: 1, const int *: 2);', 2), ('typedef volatile long VL; typeof_unqual(VL) g; return _Generic(&g, long *: 1, volatile long *: 2);', 1), ('typedef volatile long VL; typeof(VL) h; return _Generic(&h, long *: 1, volatile long *: 2);', 2),
                ('typeof_unqual(const unsigned char) k = 0; return _Generic(k + 0, int: 1, unsigned: 2);', 1), ('typeof_unqual(const unsigned char) k = 0; return _Generic(&k, unsigned char *: 1, const unsigned char *: 2);', 1),
                ('typeof_unqual(const struct { int m; }) s; s.m = 1; return _Generic(&s.m, int *: 1, const int *: 2);', 1), ('typeof(typeof_unqual(const int)) q; return _Generic(&q, int *: 1, const int *: 2);', 1),
-               ('typeof_unqual(typeof(const int)) q; return _Generic(&q, int *: 1, const int *: 2);', 1)]
+               ('typeof_unqual(typeof(const int)) q; return _Generic(&q, int *: 1, const int *: 2);', 1),
+               # qualifiers of array elements through decay, '*' and '&' (C11; both references agree)
+               ('static const int a[3]; return _Generic(&*a, const int *: 1, int *: 2);', 1), ('static const int a[3]; return _Generic(&a[0], const int *: 1, int *: 2);', 1),
+               ('static const int a[3]; return _Generic(&*&a[1], const int *: 1, int *: 2);', 1), ('static volatile char a[2][2]; return _Generic(&**a, volatile char *: 1, char *: 2);', 1),
+               ('static const int a[3]; return _Generic(&*(a + 1), const int *: 1, int *: 2);', 1), ('static const int x; return _Generic(&*&x, const int *: 1, int *: 2);', 1),
+               ('typedef int A3[3]; static const A3 a; return _Generic(&*a, const int *: 1, int *: 2);', 1), ('static const struct { int m[2]; } s; return _Generic(&*s.m, const int *: 1, int *: 2);', 1),
+               ('static int a[3]; return _Generic(&*a, const int *: 1, int *: 2);', 2), ('static const int a[2][3]; return _Generic(&*a, const int (*)[3]: 1, int (*)[3]: 2);', 1),
+               ('static const int a[2][3]; return _Generic(&**a, const int *: 1, int *: 2);', 1), ('static const int a[2][3]; return _Generic(&*a[1], const int *: 1, int *: 2);', 1)]
     for t in common.TARGETS:
         for k, (body, want) in enumerate(TPROBES):
             src = 'int tp%d(void) { %s }\n' % (k, body)
@@ -371,7 +378,7 @@ def run(tier):
             if r.status != 0 or not mret:
                 ck.violation('typeof:reject', 'valid probe not compiled to a constant return (-t %s): %s %s' % (t, src.strip(), r.err[:150].decode('latin-1')), {'input.c': src})
             elif int(mret.group(1)) != want:
-                ck.violation('typeof:%d' % k, '_Generic selects %s, C23 gives %d (-t %s): %s' % (mret.group(1), want, t, src.strip()), {'input.c': src})
+                ck.violation('typeof:%d' % k, '_Generic selects %s, the standard gives %d (-t %s): %s' % (mret.group(1), want, t, src.strip()), {'input.c': src})
     for d in alld:
         ck.distinct.add(d.meta[3])
     ck.exhaustive = True
